@@ -116,9 +116,17 @@ func (d tthDec) V(withRL bool) V {
 func tthDecodeAll(frame []byte, chunk int) (V, V, V) {
 	ctx := context.Background()
 	d1 := tthRunDecode(func() (ttheader.DecodeParam, error, int) {
-		r := bufiox.NewBytesReader(frame)
+		// the caller's receive buffer is reused for the next frame right after Decode: the decoded
+		// parameters must own their bytes
+		own := append([]byte(nil), frame...)
+		r := bufiox.NewBytesReader(own)
 		p, err := ttheader.Decode(ctx, r)
-		return p, err, r.ReadLen()
+		rl := r.ReadLen()
+		r.Release(nil)
+		for i := range own {
+			own[i] = 0xEE
+		}
+		return p, err, rl
 	})
 	d2 := tthRunDecode(func() (ttheader.DecodeParam, error, int) {
 		p, err := ttheader.DecodeFromBytes(ctx, frame)
@@ -136,9 +144,17 @@ func tthDecodeAll(frame []byte, chunk int) (V, V, V) {
 		}
 		p, err := ttheader.Decode(ctx, r)
 		rl := r.ReadLen() - pre
-		if err == nil {
-			// force copies before the reader's buffers go back to the pool
-			_ = Show(tthDec{st: 0, p: p}.V(false))
+		// the reader is released and its pooled buffer is taken and overwritten by another reader
+		// BEFORE the decoded parameters are looked at: they must own their bytes
+		r.Release(nil)
+		junk := make([]byte, len(data)+64)
+		for i := range junk {
+			junk[i] = 0xEE
+		}
+		for k := 0; k < 2; k++ {
+			r2 := bufiox.NewDefaultReader(&tthChunkReader{data: junk, chunk: len(junk)})
+			r2.Next(len(junk))
+			r2.Release(nil)
 		}
 		return p, err, rl
 	})
